@@ -1099,7 +1099,15 @@ func oracleC14(c *oracleCtx) {
 			guard(c, "", map[string]any{"tree": in.sexp, "cfg": in.cfg}, func() {
 				c14Tree(c, parseProgramSexp(in.sexp), []string{"c", in.cfg}, map[string]any{"tree": in.sexp, "cfg": in.cfg})
 			})
+		case "BUILD":
+			oaBuildHistory(c, "builder-history", in.line)
+			c.count(in.line)
 		case "rec":
+			if h := recStr(in.rec, "history"); h != "" {
+				oaBuildHistory(c, "builder-history", h)
+				c.count(in.line)
+				continue
+			}
 			if c14Replay(c, in.rec) {
 				continue
 			}
@@ -1122,6 +1130,8 @@ func oracleC14(c *oracleCtx) {
 		return
 	}
 
+	// parsers built from one builder do not depend on the builds made before them
+	oaModeHistories(c, "builder-history", c.n(300, 6000))
 	for _, sc := range c14Directed() {
 		if !c14Diverged.Load() {
 			c14RunScenario(c, sc)
